@@ -26,6 +26,7 @@ import (
 	"Havoc/pkg/handlers"
 	"Havoc/pkg/packager"
 
+	"verifharness/internal/core"
 	"verifharness/internal/demonref"
 	"verifharness/internal/pvx"
 )
@@ -101,7 +102,36 @@ type Op struct {
 type History struct {
 	Agents  []AgentSpec `json:"agents"`
 	Existed bool        `json:"existed,omitempty"`
+	DB      string      `json:"db,omitempty"` // "fresh" | "existed" | "golden" (copy of testdata/golden-schema.db); "" = Existed decides
 	Ops     []Op        `json:"ops"`
+}
+
+func (h History) dbMode() string {
+	switch {
+	case h.DB != "":
+		return h.DB
+	case h.Existed:
+		return "existed"
+	}
+	return "fresh"
+}
+
+// onExistingFile: a violation that shows on the golden (pre-existing) file only, while the
+// schema of that file differs from what the code under test creates today, is named
+// after the schema difference.
+func onExistingFile(h History, v *core.Violation, rerunFresh func() *core.Violation) *core.Violation {
+	if v == nil || h.dbMode() != "golden" {
+		return v
+	}
+	diff := pvx.SchemaDiff()
+	if len(diff) == 0 {
+		return v
+	}
+	if vf := core.Guard(rerunFresh); vf != nil {
+		return v
+	}
+	return core.V("schema|existing-database-differs-from-fresh|"+strings.Join(diff, "+"),
+		"on a database file that existed before this teamserver opened it (schema of the unchanged tree, harness/testdata/golden-schema.sql) the history violates the property, on a freshly created file it does not; tables whose definition differs: %v.\n[%s] %s", diff, v.Sig, v.Msg)
 }
 
 func keyFrom(seed byte) ([]byte, []byte) {
